@@ -175,6 +175,10 @@ def construct(case):
                 kw[k] = build_dest(address, v)
             if isinstance(v, list) and v and v[0] == "dshort":
                 kw[k] = address.DeviceShort(v[1])
+            elif isinstance(v, list) and v and v[0] == "inst":
+                kw[k] = build_instance(address, v[1])
+            elif isinstance(v, list) and v and v[0] in ("dgroup", "dbcast", "dunaddr", "gshort", "ggroup", "gbcast", "gunaddr"):
+                kw[k] = build_dest(address, v)
         return cls(**kw)
     raise ValueError(fam)
 
@@ -512,6 +516,16 @@ def illegal_cases(path, fam, cls):
                     kw = dict(legal, **dkw)
                     kw[fld] = v
                     yield dict(base, kw=kw, illegal="%s:%s:%s" % (scheme, fld, tag))
+        # an address object of the wrong kind where the source short address belongs
+        for tag, v in [("device-group", ["dgroup", 5]), ("device-broadcast", ["dbcast"]), ("device-unaddressed", ["dunaddr"]),
+                       ("gear-short", ["gshort", 5]), ("gear-group", ["ggroup", 5]), ("gear-broadcast", ["gbcast"]),
+                       ("instance-number", ["inst", 0x03]), ("instance-group", ["inst", 0x83]), ("instance-broadcast", ["inst", 0xFF])]:
+            kw = dict(dkw, short_address=v)
+            if name == "AmbiguousInstanceType":
+                kw["instance_number"] = 2
+            yield dict(base, kw=kw, illegal="short_address:" + tag)
+            if name not in ("AmbiguousInstanceType",):
+                yield dict(base, kw=dict(kw, instance_number=2), illegal="short_address+instance:" + tag)
         if name != "AmbiguousInstanceType":
             yield dict(base, kw=dict(dkw), illegal="no-addressing")
             yield dict(base, kw=dict(dkw, short_address=3, device_group=2), illegal="short+device-group")
